@@ -241,22 +241,25 @@ class Schema:
             head += " implements " + " & ".join(t.interfaces)
         return head + " {\n  " + "\n  ".join(self._sdl_field(f) for f in t.fields) + "\n}"
 
-    def sdl(self, order=None, fold_extensions=False):
+    def sdl(self, order=None, fold_extensions=False, extensions_first=False):
         names = list(self.types) if order is None else order
         parts = []
         default_roots = (self.roots.get("query") == "Query" and self.roots.get("mutation") in (None, "Mutation")
                          and self.roots.get("subscription") in (None, "Subscription"))
         if self.explicit or not default_roots:
             parts.append("schema {\n" + "".join("  %s: %s\n" % (k, v) for k, v in self.roots.items() if v) + "}")
+        tparts, eparts = [], []
         for n in names:
             t = self.folded(n) if fold_extensions else self.types[n]
-            parts.append(self._sdl_type(t))
+            tparts.append(self._sdl_type(t))
         if not fold_extensions:
             for name, fs, ifs in self.extensions:
                 head = "extend type " + name
                 if ifs:
                     head += " implements " + " & ".join(ifs)
-                parts.append(head + (" {\n  " + "\n  ".join(self._sdl_field(f) for f in fs) + "\n}" if fs else ""))
+                eparts.append(head + (" {\n  " + "\n  ".join(self._sdl_field(f) for f in fs) + "\n}" if fs else ""))
+        # (an SDL document may put an extension block before the definition it extends)
+        parts += (eparts + tparts) if extensions_first else (tparts + eparts)
         return "\n\n".join(parts) + "\n"
 
     # ------------------------------------------------------------------ introspection JSON
@@ -346,7 +349,8 @@ def _dirs(directives):
 
 
 def render_directives(directives):
-    return "".join(" @%s(if: $%s)" % d for d in directives)
+    """(kind, variable name) or, for a literal condition, (kind, "=true" / "=false")."""
+    return "".join(" @%s(if: %s)" % (k, v[1:] if v.startswith("=") else "$" + v) for k, v in directives)
 
 
 class Field:
@@ -391,9 +395,10 @@ class Spread:
 def skipped(node, env):
     """spec 6.3.2: is the node left out under the variable values `env` (name -> bool)?"""
     for kind, var in node.directives:
-        if kind == "skip" and env.get(var):
+        val = (var == "=true") if var.startswith("=") else bool(env.get(var))
+        if kind == "skip" and val:
             return True
-        if kind == "include" and not env.get(var):
+        if kind == "include" and not val:
             return True
     return False
 
@@ -404,7 +409,7 @@ def directive_variables(doc):
     def walk(sel):
         for s in sel or ():
             for _, var in s.directives:
-                if var not in out:
+                if var not in out and not var.startswith("="):
                     out.append(var)
             if not isinstance(s, Spread):
                 walk(s.sel)
